@@ -107,7 +107,10 @@ def run(report, tier, seed):
     nb = 10 if tier == "quick" else 120
     width = 60
     for k in range(nb):
-        kind = rng.choice(["uni2", "uni2", "uni3", "mixed", "big", "huge"])
+        kind = rng.choice(["uni2", "uni2", "uni3", "mixed", "big", "huge", "u64"])
+        if k < 4:            # every run has at least one batch of each of the special kinds
+            kind = ["u64", "huge", "mixed", "big"][k]
+        dts = (numpy.int64, numpy.int64, numpy.int64)
         if kind == "uni2":
             na = nb_ = nc = (0, 1)
             A, B, C = ([rng.choice(uni2) for _ in range(width)] for _ in range(3))
@@ -126,6 +129,30 @@ def run(report, tier, seed):
             def hp():
                 return {m: rng.choice(big) for m in rng.sample([(0, 0), (1, 0), (0, 1), (1, 1), (2, 0)], rng.randint(1, 3))}
             A, B, C = ([hp() for _ in range(width)] for _ in range(3))
+        elif kind == "u64":       # int64 against uint64 operands that differ by less than the float64 spacing
+            na = nb_ = nc = (0, 1)
+            near = [2 ** 63 - 1, 2 ** 63 - 2, 2 ** 62 + 1, 2 ** 62, 2 ** 53 + 1, 2 ** 53, 3, 0]
+            unear = near + [2 ** 63, 2 ** 63 + 1, 2 ** 64 - 1]
+            dts = (numpy.int64, numpy.uint64, numpy.int64) if rng.random() < 0.5 else (numpy.uint64, numpy.int64, numpy.uint64)
+
+            def hp(vals):
+                return {m: rng.choice(vals) for m in rng.sample([(0, 0), (1, 0), (0, 1), (1, 1), (2, 0)], rng.randint(1, 3))}
+            A, B, C = ([hp(unear if d is numpy.uint64 else near + [-v for v in near]) for _ in range(width)] for d in dts)
+            # pairs that agree everywhere except for +-1 on one coefficient beyond 2**53 (and possibly an opposite
+            # difference on another term): the verdict must come from the exact integers
+            bigs = [2 ** 63 - 5, 2 ** 62 + 1, 2 ** 53 + 1, 2 ** 60 + 3]
+            for j in range(len(A)):
+                if rng.random() < 0.6:
+                    base = {m: rng.choice(bigs + [3, 1]) for m in rng.sample([(0, 0), (1, 0), (0, 1), (1, 1), (2, 0)], rng.randint(2, 4))}
+                    if not any(v > 2 ** 53 for v in base.values()):
+                        base[(1, 1)] = rng.choice(bigs)
+                    A[j], B[j] = dict(base), dict(base)
+                    mbig = rng.choice([m for m, v in base.items() if v > 2 ** 53])
+                    B[j][mbig] = base[mbig] + rng.choice([1, -1])
+                    if rng.random() < 0.5:
+                        mo = rng.choice(list(base))
+                        if mo != mbig:
+                            A[j][mo] = base[mo] + rng.choice([1, 2])
         else:
             na = nb_ = nc = (0, 1, 2)
             deg = rng.randint(5, 9)
@@ -135,12 +162,14 @@ def run(report, tier, seed):
         # force some equal and near-equal pairs
         if na == nb_:
             for j in range(0, len(A), 7):
-                B[j] = dict(A[j])
-        batches.append((A, na, B, nb_, C, nc))
+                B[j] = dict(A[j]) if kind != "u64" else ({m: v for m, v in A[j].items() if 0 <= v < 2 ** 63} or {(0, 0): 1})
+                if kind == "u64":
+                    A[j] = dict(B[j])
+        batches.append((A, na, B, nb_, C, nc, dts))
 
     settings = [(True, False), (False, False), (True, True), (False, True)]
-    for bi, (A, na, B, nb_, C, nc) in enumerate(batches):
-        pa, pb, pc = build_array(A, na), build_array(B, nb_), build_array(C, nc)
+    for bi, (A, na, B, nb_, C, nc, dts) in enumerate(batches):
+        pa, pb, pc = build_array(A, na, dts[0]), build_array(B, nb_, dts[1]), build_array(C, nc, dts[2])
         for g, r in (settings if tier == "thorough" or bi < 4 else [settings[bi % 4]]):
             with numpoly.global_options(sort_graded=g, sort_reverse=r):
                 res = {}
@@ -186,14 +215,18 @@ def run(report, tier, seed):
                    {"kind": "ne", "batch": bi})
             for nm, pres, gen in (("max", mx, "gen_maximum"), ("min", mn, "gen_minimum")):
                 sh, els = core.canon_elements(pres)
-                cc.add(f"chk (zselect {gen} {o} {ta} {tb}) (EOk {core.coq_obs(sh, els)})", {"kind": nm, "batch": bi})
+                rd = pres.dtype      # int64 with uint64 operands: numpy's common dtype is float64, the selected operand is
+                                     # stored rounded to it (C12's business); the selection itself is what is checked here
+                rc = (lambda c: c) if rd.kind in "iu" else (lambda c, rd=rd: int(rd.type(c)))
+                if rd.kind in "iu":
+                    cc.add(f"chk (zselect {gen} {o} {ta} {tb}) (EOk {core.coq_obs(sh, els)})", {"kind": nm, "batch": bi})
                 # maximum/minimum return the larger/smaller operand
                 for i in range(n):
                     sign = spec_sign(A[i], na, B[i], nb_, g, r)
                     want = A[i] if ((sign > 0) == (nm == "max") and sign != 0) else B[i]
                     wn = na if want is A[i] else nb_
                     got = els[i]
-                    wcanon = sorted((tuple(sorted((v, e) for v, e in zip(wn, m) if e)), c) for m, c in want.items() if c)
+                    wcanon = sorted((tuple(sorted((v, e) for v, e in zip(wn, m) if e)), rc(c)) for m, c in want.items() if rc(c))
                     if got != wcanon:
                         viol.append((f"{nm}imum(a,b) is not the {'larger' if nm == 'max' else 'smaller'} operand for a={A[i]}, b={B[i]}",
                                      {"kind": nm, "a": str(A[i]), "b": str(B[i]), "got": str(got)}))
